@@ -6,19 +6,17 @@ DRIVER = "c06"
 MODEL = "C06"
 MODEL_QUALID = "Model.TimeLimiter.run_script"
 FORMAT = ("script [cancel; dyn; n; T; t_0..t_(n-1); (op a b)*]: cancel 1 = cancel_running_future(true); dyn 0 = fixed timeout T ms, "
-          "1 = per-request timeout t_i ms for caller i; op 1=Poll a (b = tie-break oracle, filled from the implementation's run) "
+          "1 = per-request timeout t_i ms for caller i; op 1=Poll a "
           "2=Drop a 3=Advance a(ms) 4=Complete a b(0 ok,1 err,2 panic) 5=Call a (build the future). "
           "trace: per event [r; val; wake mask; inner-call states base 4 (0 none 1 running 2 finished 3 dropped)] with "
           "r: -1 no poll, 0 pending, 1 Ok, 2 Err(Inner), 3 Err(Timeout), 5 panicked, 9 nothing to poll")
 RULE = ("per caller a plan (first poll instant, inner latency strictly below / exactly at / above the deadline or never, ok/err/panic, "
-        "prompt or late polls, optional cancellation, completion before the first poll) merged over 1-4 concurrent callers with "
+        "prompt or late polls (also at/after the deadline with the result already there), optional cancellation, completion before the first poll) merged over 1-4 concurrent callers with "
         "different per-request or one fixed timeout, both modes, same-instant events in random order; plus uniformly random scripts; "
         "plus (thorough) all scripts up to length 5 over a two-caller alphabet; non-trivial = some call timed out or resolved at/after a tie")
-TRUSTED = ["tokio time::timeout (inner future polled before the timer), time::sleep, oneshot, task spawning and the un-biased select! "
-           "are modelled; they are tied to the libraries only by this correspondence run",
-           "poll atomicity; the spawned task of non-cancel mode runs to quiescence after every script event",
-           "the winner of select! when both branches are ready is taken from the implementation's run (oracle bit in Poll); "
-           "the theorems hold for every value of the bit"]
+TRUSTED = ["tokio time::timeout (inner future polled before the timer), time::sleep, oneshot, task spawning and the biased select! "
+           "(receiver before sleep) are modelled; they are tied to the libraries only by this correspondence run",
+           "poll atomicity; the spawned task of non-cancel mode runs to quiescence after every script event"]
 ASSUMPTIONS = ["whole-millisecond instants", "single-threaded deterministic executor: one poll at a time",
                "inner panics are outside the property (modelled and compared, not claimed)"]
 
@@ -49,18 +47,6 @@ def decode(s, t):
     if len(t) != 4 * len(evs):
         return None
     return cancel, n, tm, [(e, t[4 * k:4 * k + 4]) for k, e in enumerate(evs)]
-
-
-def model_input(s, t):
-    """fill the tie-break bit of every Poll with what the implementation did (1 = Timeout)"""
-    cancel, n, tm, evs, pos = events(s)
-    if len(t) != 4 * len(evs):
-        return s
-    out = list(s)
-    for k, (e, p) in enumerate(zip(evs, pos)):
-        if e[0] == 1:
-            out[p + 2] = 1 if t[4 * k] == 3 else 0
-    return out
 
 
 CODE = {0: 1, 1: 2}
@@ -120,8 +106,10 @@ def monitor(s, t):
                     ok = r == CODE[c[2]] and val == a
                     msg = "inner finished before the deadline"
                 elif avail and due:
-                    ok = (r == CODE[c[2]] and val == a) or (r == 3 and not cancel)
-                    msg = "tie: inner result available and deadline reached"
+                    # the result was delivered and had the chance to run before this poll: it wins,
+                    # in both modes, also at the exact tie and when the poll is late
+                    ok = r == CODE[c[2]] and val == a
+                    msg = "inner result already available, deadline reached"
                 elif due:
                     ok = r == 3
                     msg = "inner unfinished at/after the deadline"
@@ -160,6 +148,11 @@ def monitor(s, t):
 
 def corpus():
     return [
+        # non-cancel mode: result ready at t=2, deadline 10, polled only at t=10 - must be the result
+        # (reproducer of the un-biased select! defect fixed in /repo 0b06d50)
+        [0, 0, 1, 10, 0, 1, 0, 0, 3, 2, 0, 4, 0, 0, 3, 8, 0, 1, 0, 0],
+        # the same with the completion exactly at the deadline, and a later poll
+        [0, 0, 1, 10, 0, 1, 0, 0, 3, 10, 0, 4, 0, 1, 3, 5, 0, 1, 0, 0],
         # cancel mode, fixed 10 ms: result strictly before, exactly at, after the deadline
         [1, 0, 3, 10, 0, 0, 0, 1, 0, 0, 1, 1, 0, 1, 2, 0, 3, 9, 0, 4, 0, 0, 1, 0, 0, 3, 1, 0, 4, 1, 1, 1, 1, 0, 1, 2, 0, 3, 1, 0, 4, 2, 0],
         # non-cancel mode, same schedule; the inner calls run on
